@@ -38,7 +38,7 @@ def model_answers(m, types, ctxs):
     return {"q": q, "count": cnt, "replay": {tc: sorted(rep[tc].items()) for tc in rep}}
 
 
-def judge(chk, beh, recs, problems, cfgdesc, stats):
+def judge(chk, beh, recs, problems, cfgdesc, stats, types=None):
     replay = {"behaviour": beh, "config": cfgdesc}
     prev = None
     for rec in recs:
@@ -56,11 +56,19 @@ def judge(chk, beh, recs, problems, cfgdesc, stats):
             chk.violation(f"compaction round {i} reported an error: {[p for p in problems if p.get('problem') == 'compaction failed'][:1]}", replay)
             return
         cur = answers(real)
-        asb = model_answers(c["obs"], TYPES, CTXS)
-        if c["cmd"] == "compact" and prev is not None:
+        if types:
+            # one shard's view of a two-shard run: only its own event types
+            cur = {"q": {t: v for t, v in cur["q"].items() if t in types}, "count": {t: v for t, v in cur["count"].items() if t in types},
+                   "replay": cur["replay"]}
+        asb = model_answers(c["obs"], types or TYPES, CTXS)
+        # two-shard behaviours: a round of the OTHER shard (cmd "other" of "compact") must leave this shard's answers alone too
+        is_round = c["cmd"] == "compact" or (c["cmd"] == "other" and c.get("of") == "compact")
+        if is_round and prev is not None:
             stats["rounds"] += 1
-            if c.get("crash", "none") != "none":
+            if c.get("crash", c.get("other_crash", "none")) != "none":
                 stats["rounds_crashed"] += 1
+            if c["cmd"] == "other":
+                stats["rounds_of_other_shard"] += 1
             if cur != prev["real"]:
                 fired = sorted(c["obs"]["fired"])
                 diff = {k: (prev["real"][k], cur[k]) for k in cur if cur[k] != prev["real"][k]}
@@ -133,6 +141,13 @@ def run(tier):
     if not q:
         plans.append({"name": "c05-cap3k4", "cap": 3, "k": 4, "gen_len": 16, "n_sim": 400, "n_rep": 150, "gen": gen, "filter": has_compaction})
     stats = storage.campaign(chk, "C05", plans, TYPES, CTXS, bindir, judge, rnd)
+    # two ACTIVE shards (spec/Storage2Gen.tla): rounds of either shard while the other holds data of its own; every round is
+    # judged from both shards' views (the compacting shard's answers and the other shard's answers must both stay put)
+    sp = storage.campaign2(chk, "C05", [{"name": "c05p-cap2k2", "cap": 2, "k": 2, "gen_len": 11, "n_sim": 500, "n_rep": 8 if q else 120}],
+                           CTXS, bindir, judge, random.Random(core.seed() + 55), with_replay=True,
+                           keep_if=lambda b: sum(1 for c in b if c["cmd"] == "compact") >= 1)
+    chk.cov["traces_validated_against_impl"] += sp["behaviours"]
+    stats["rounds"] += sp["rounds"]
     chk.cov["evaluations"] = stats["rounds"]
     chk.cov["distinct_nontrivial"] = stats["rounds"]
     chk.cov["rule"] = ("one evaluation = one compaction round of a TLC-generated history replayed on the real engine, "
